@@ -16,6 +16,9 @@ prev_txt = ('\nIdeas ALREADY USED by earlier changes for this property (do NOT r
 FLAVOURS = {'e': '* For THIS change prefer one of: state carried from one API call to the next (an object used twice, a cache, a default argument), an interaction of '
                  'two features / options that each work alone, two cooperating edits in different functions or files that each look fine alone, or an input at the edge of the '
                  'documented domain (empty / single element / maximum arity / index 0 / repeated names).\n'}
+FLAVOURS['f'] = ('* For THIS change: do NOT edit SimOps.__init__ or Heap in sim.py and not the _wave_eval kernel (earlier changes concentrated there) unless the property is anchored '
+                 'nowhere else; prefer the OTHER anchored files and functions.  Prefer: an optional / rarely used parameter of a public function, a documented behaviour from a docstring, '
+                 'a default value, an interaction of two public calls, or a helper that several public functions share.\n')
 flavour = FLAVOURS.get(variant, '')
 print(f"""You are testing how good a (hidden) verification harness is. Your job: write ONE realistic, subtle change to the Python library
 s-holst/kyupy that BREAKS the semantic property below while the library still imports and its existing test suite still passes.
